@@ -153,6 +153,15 @@ func checkC41(c *Check) {
 							modified = true
 						}
 					}
+					// a descent into a child may change the subtree under the same root node (a deletion two levels
+					// down keeps the child's root and shortens it): wherever its result is kept, the node needs repair
+					if nd.Fn != nil && !nd.Tail && (nd.Fn.Name() == "insert" || nd.Fn.Name() == "remove" || nd.Fn.Name() == "extractMin") {
+						for _, a := range nd.Args {
+							if a == "val.left" || a == "val.right" {
+								modified = true
+							}
+						}
+					}
 					if nd.Tail {
 						if modified {
 							n++
@@ -255,7 +264,7 @@ func checkC41(c *Check) {
 		c.Ob("ring/vacated-slot-zeroed", "CircularSlice.Clear", ok, pos(ir), "both segments are zeroed and positions reset")
 	}
 	if t, ir := txt("CircularSlice.Reserve"); ir != nil {
-		ok := regexp.MustCompile(`call CircularSlice\.Slices recv=item\(\) -> \[\$ \$\]\nassign \$ := make\(T:\[\]T, val\)\ncall copy recv=\(\$, \$\) -> \[\$\]\ncall copy recv=\(\$\[\$:\], \$\) -> \[\$\]\n`).MatchString(t) && strings.HasSuffix(t, "assign item.read_pos = #0\nassign item.write_pos = $\nassign item.elements = $\n")
+		ok := regexp.MustCompile(`call CircularSlice\.Slices recv=item\(\) -> \[\$ \$\]\nassign \$ := make\(T:\[\]T, val\)\ncall copy recv=\(\$, \$\) -> \[\$\]\ncall copy recv=\(\$\[\$:\], \$\) -> \[\$\]\n`).MatchString(t) && strings.HasSuffix(t, "assign item.elements = $\nassign item.read_pos = #0\nassign item.write_pos = $\n")
 		// order of the two copies: first segment first
 		var sb strings.Builder
 		dumpBlock(&sb, ir.Body, "")
